@@ -380,5 +380,5 @@ HPREDS = {"h_unsigned_ge_2p63": _h_unsigned_ge_2p63, "h_negative_contents": _h_n
 MPREDS = {"opts_fno_constraints": lambda run, evs: "-fno-constraints" in run.get("opts", []),
           # illegal only because an OPTIONAL run of the root continues into the extension additions
           # illegal only because a component that refers to a (non-CHOICE) type by name clashes with an untagged CHOICE
-          "illegal_only_via_alias": lambda scn, ev: (not scn.get("legal")) and bool(scn.get("legal_noalias")),
+          "illegal_only_via_alias": lambda scn, ev: (not scn.get("legal")) and bool(scn.get("legal_noalias")) and not scn.get("legal_split"),
           "illegal_only_across_marker": lambda scn, ev: (not scn.get("legal")) and bool(scn.get("legal_split"))}
